@@ -220,12 +220,16 @@ MapOutside(s, qq, up, i, q, acc) ==
   IF i > Len(s) THEN acc
   ELSE LET q2 == QStep(s, 1, qq, i, q)
            inq == q.sq \/ q.dq \/ q2.sq \/ q2.dq         \* the quote characters themselves are not letters
-       IN  MapOutside(s, qq, up, i + 1, q2, Append(acc, IF inq THEN s[i] ELSE IF up THEN Up(s[i]) ELSE Lo(s[i])))
-UpOutside(s, qq) == MapOutside(s, qq, TRUE, 1, Q0, <<>>)
-LoOutside(s, qq) == MapOutside(s, qq, FALSE, 1, Q0, <<>>)
+           ch  == CASE up = "upper" -> Up(s[i]) [] up = "lower" -> Lo(s[i])
+                    [] OTHER -> IF IsLower(s[i]) THEN Up(s[i]) ELSE Lo(s[i])                     \* "swap"
+       IN  MapOutside(s, qq, up, i + 1, q2, Append(acc, IF inq THEN s[i] ELSE ch))
+UpOutside(s, qq) == MapOutside(s, qq, "upper", 1, Q0, <<>>)
+LoOutside(s, qq) == MapOutside(s, qq, "lower", 1, Q0, <<>>)
+SwapOutside(s, qq) == MapOutside(s, qq, "swap", 1, Q0, <<>>)
 
 CaseOf(s, mode, qq) == CASE mode = "upper" -> UpOutside(s, qq)
                          [] mode = "lower" -> LoOutside(s, qq)
+                         [] mode = "swap"  -> SwapOutside(s, qq)
                          [] OTHER          -> s
 
 RECURSIVE JoinArgs(_, _, _)
